@@ -4,17 +4,17 @@ package verifsim
 // workload, segmentation, faults, pool policy and schedule. Execution is a pure function of it.
 
 type ServicePlan struct {
-	Schema      string   `json:"schema"`                // library | content | sim
-	Via         string   `json:"via,omitempty"`         // name | schema | fresh | private | noparent | notfound
-	Protocols   []string `json:"protocols,omitempty"`   // nil: transcoder default
-	Codecs      []string `json:"codecs,omitempty"`      // nil: default
-	Compression []string `json:"compression,omitempty"` // nil: default; see NoCompression
-	NoCompression bool   `json:"no_compression,omitempty"`
-	MaxMsg      uint32   `json:"max_msg,omitempty"`
-	MaxGetURL   uint32   `json:"max_get_url,omitempty"`
-	DiscardUnknownQuery bool `json:"discard_unknown_query,omitempty"`
-	EmptyProtocols bool `json:"empty_protocols,omitempty"` // WithTargetProtocols() with no arguments
-	EmptyCodecs    bool `json:"empty_codecs,omitempty"`    // WithTargetCodecs() with no arguments
+	Schema              string   `json:"schema"`                // library | content | sim
+	Via                 string   `json:"via,omitempty"`         // name | schema | fresh | private | noparent | notfound
+	Protocols           []string `json:"protocols,omitempty"`   // nil: transcoder default
+	Codecs              []string `json:"codecs,omitempty"`      // nil: default
+	Compression         []string `json:"compression,omitempty"` // nil: default; see NoCompression
+	NoCompression       bool     `json:"no_compression,omitempty"`
+	MaxMsg              uint32   `json:"max_msg,omitempty"`
+	MaxGetURL           uint32   `json:"max_get_url,omitempty"`
+	DiscardUnknownQuery bool     `json:"discard_unknown_query,omitempty"`
+	EmptyProtocols      bool     `json:"empty_protocols,omitempty"` // WithTargetProtocols() with no arguments
+	EmptyCodecs         bool     `json:"empty_codecs,omitempty"`    // WithTargetCodecs() with no arguments
 }
 
 func (s *ServicePlan) protocols() []string {
@@ -46,12 +46,12 @@ func (s *ServicePlan) maxMsg() uint32 {
 }
 
 type RulePlan struct {
-	Selector string     `json:"selector"`
-	Method   string     `json:"method"` // GET POST PUT DELETE PATCH or custom kind
-	Custom   bool       `json:"custom,omitempty"`
-	Template string     `json:"template"`
-	Body     string     `json:"body,omitempty"`
-	RespBody string     `json:"resp_body,omitempty"`
+	Selector   string     `json:"selector"`
+	Method     string     `json:"method"` // GET POST PUT DELETE PATCH or custom kind
+	Custom     bool       `json:"custom,omitempty"`
+	Template   string     `json:"template"`
+	Body       string     `json:"body,omitempty"`
+	RespBody   string     `json:"resp_body,omitempty"`
 	Additional []RulePlan `json:"additional,omitempty"`
 	NoPattern  bool       `json:"no_pattern,omitempty"`
 }
@@ -84,24 +84,24 @@ type ClientPlan struct {
 	Msgs        []MsgSpec   `json:"msgs,omitempty"`
 	ShortCT     bool        `json:"short_ct,omitempty"`
 	// REST / raw
-	HTTPMethod  string `json:"http_method,omitempty"`
-	Path        string `json:"path,omitempty"`
-	RawQuery    string `json:"raw_query,omitempty"`
-	RawBody     []byte `json:"raw_body,omitempty"`
-	HasRawBody  bool   `json:"has_raw_body,omitempty"`
-	RestJSON    []byte `json:"rest_json,omitempty"` // REST body as JSON text (instead of Msgs)
-	ContentType string `json:"content_type,omitempty"`
+	HTTPMethod  string      `json:"http_method,omitempty"`
+	Path        string      `json:"path,omitempty"`
+	RawQuery    string      `json:"raw_query,omitempty"`
+	RawBody     []byte      `json:"raw_body,omitempty"`
+	HasRawBody  bool        `json:"has_raw_body,omitempty"`
+	RestJSON    []byte      `json:"rest_json,omitempty"` // REST body as JSON text (instead of Msgs)
+	ContentType string      `json:"content_type,omitempty"`
 	ExtraHdrs   [][2]string `json:"extra_hdrs,omitempty"`
-	GetBase64   *bool  `json:"get_base64,omitempty"`
+	GetBase64   *bool       `json:"get_base64,omitempty"`
 	// transport
-	DeclareCL   string `json:"declare_cl,omitempty"` // "" (exact for unary forms on h1, none for streams) | none | exact | +N | -N | =N
-	Deliveries  []int  `json:"deliveries,omitempty"` // cyclic piece sizes; nil: whole body at once
-	EOFWithData bool   `json:"eof_with_data,omitempty"`
-	Faults      []Fault `json:"faults,omitempty"`
-	PingPong    bool   `json:"ping_pong,omitempty"`
-	RW          string `json:"rw,omitempty"` // flusher | flusherr | unwrap | noflush
-	WriterFailAfter int `json:"writer_fail_after,omitempty"` // >0: client goes away after this many response bytes
-	CancelAtStep int   `json:"cancel_at_step,omitempty"`    // >0: request context cancelled at this scheduler step
+	DeclareCL       string  `json:"declare_cl,omitempty"` // "" (exact for unary forms on h1, none for streams) | none | exact | +N | -N | =N
+	Deliveries      []int   `json:"deliveries,omitempty"` // cyclic piece sizes; nil: whole body at once
+	EOFWithData     bool    `json:"eof_with_data,omitempty"`
+	Faults          []Fault `json:"faults,omitempty"`
+	PingPong        bool    `json:"ping_pong,omitempty"`
+	RW              string  `json:"rw,omitempty"`                // flusher | flusherr | unwrap | noflush
+	WriterFailAfter int     `json:"writer_fail_after,omitempty"` // >0: client goes away after this many response bytes
+	CancelAtStep    int     `json:"cancel_at_step,omitempty"`    // >0: request context cancelled at this scheduler step
 }
 
 type RPCPlan struct {
